@@ -940,6 +940,8 @@ public:
           break;
         }
       }
+      if (buf.size() == 0)
+        ++stats["tasks_with_empty_input_buffer"];
       if (buf.size() > PHOTONBUFFER_SIZE) {
         fail("buffer-overflow", sfmt("task input buffer holds %u packets",
                                      (unsigned)buf.size()));
